@@ -25,7 +25,7 @@ TRUSTED = ["ClientLTS.v is a hand model of AsyncIOClient.connect/_receive_loop/s
            "task cancellation: CPython 3.12 asyncio, modelled not verified",
            "tools/vloop.py: virtual-time selector, fake transports, method wrappers, block -> label translation"]
 ASSUMPTIONS = ["asyncio schedules every runnable task eventually (fairness) and wall-clock effects are outside the model",
-               "the application does not cancel connect/send/close tasks and calls close() at most once",
+               "the application does not cancel connect/send/close tasks",
                "build_network_map=False (no _seed_network_map task)"]
 ALWAYS_SEARCH = True      # the oracle re-reads the sessions the correspondence ran (cached): free, and it sees what the
 #                           control-flow model does not (which frames reach the callback)
